@@ -20,7 +20,7 @@ type FnResult struct {
 }
 
 func (p *Prog) newEnc(fn *ssa.Function, con *Contract, S *Sorts) *Enc {
-	return &Enc{P: p, S: S, fn: fn, con: con, names: map[string]int{}, notes: map[string]bool{}, ifaces: map[string]*types.Interface{}}
+	return &Enc{P: p, S: S, fn: fn, con: con, curBlk: -1, names: map[string]int{}, notes: map[string]bool{}, ifaces: map[string]*types.Interface{}}
 }
 
 // verifyFunction generates all obligations for one function under contract.
@@ -51,6 +51,26 @@ func (p *Prog) verifyFunction(fn *ssa.Function, con *Contract) (res *FnResult) {
 	e.allHeapVars = hv
 	e.encodeTop()
 	res.Obls = e.obls
+	// vacuity guard for ghost hooks: a key that matches no call site (typo, renamed or
+	// removed callee) would silently drop its assertions / ghost updates
+	if con != nil {
+		var keys []string
+		for k := range con.AtCalls {
+			keys = append(keys, k)
+		}
+		sort.Strings(keys)
+		for _, k := range keys {
+			if k == "entry" || e.hooksFired[k] {
+				continue
+			}
+			var props []string
+			for _, h := range con.AtCalls[k] {
+				props = append(props, clauseProps(h.C, con.Props)...)
+			}
+			res.Obls = append(res.Obls, &Obligation{Name: res.Fn + "#hook:" + k, Kind: "hook", Fn: res.Fn, Props: props, Solver: "structural", Result: "sat",
+				Src: "the `at call " + k + "` directive of the contract matches no call site of the function"})
+		}
+	}
 	for n := range e.notes {
 		res.Notes = append(res.Notes, n)
 	}
